@@ -23,6 +23,7 @@ package resolver
 import (
 	"fmt"
 	"math"
+	"strconv"
 
 	"github.com/gontainer/gontainer-helpers/v3/exporter"
 	"github.com/gontainer/gontainer/internal/pkg/consts"
@@ -57,6 +58,9 @@ func (NonStringPrimitiveResolver) Supports(i any) bool {
 // GO has neither literals nor constant expressions for non-finite floats (YAML: .inf, -.inf, .nan),
 // exporter.MustExport renders them as float64(+Inf), float64(-Inf), float64(NaN), what does not compile,
 // so they must be computed in the runtime.
+// exporter.MustExport renders big floats in the positional notation without a decimal point (e.g. 1e300 as a "1"
+// followed by 300 zeros), what is an integer constant, and GO refuses integer constants wider than 512 bits
+// ("constant overflow"), so they are rendered with an exponent.
 func exportPrimitive(i any) string {
 	if f, ok := i.(float64); ok {
 		const tpl = "func() float64 { zero := float64(0); return %s }()"
@@ -67,6 +71,8 @@ func exportPrimitive(i any) string {
 			return fmt.Sprintf(tpl, "1 / zero")
 		case math.IsInf(f, -1):
 			return fmt.Sprintf(tpl, "-1 / zero")
+		case math.Abs(f) >= 1e21:
+			return fmt.Sprintf("float64(%s)", strconv.FormatFloat(f, 'e', -1, 64))
 		}
 	}
 	return exporter.MustExport(i)
